@@ -136,7 +136,9 @@ class Blob:
             else:
                 lo2 = lo
             if lo2 is not None:
-                if hi is None or bool(_n(hi) >= ln):
+                # strict comparison first: when the request ends exactly at the segment end
+                # the piece keeps the (possibly concrete) requested length
+                if hi is None or bool(_n(hi) > ln):
                     hi2 = ln
                 elif bool(_n(hi) <= lo2):
                     hi2 = None
@@ -211,10 +213,25 @@ class Blob:
     def __eq__(self, o):
         if isinstance(o, (bytes, SymBytes)) and not self.segs:
             return len(o) == 0
+        if isinstance(o, (bytes, bytearray)) or (isinstance(o, SymBytes) and o.tail is None):
+            # against a literal: equal iff same length and same bytes
+            lit = SymBytes.of(o)
+            k = len(lit.items)
+            n = self.__symlen__()
+            if isinstance(n, int):
+                if n != k:
+                    return False
+            elif not bool(n == k):
+                return False
+            m = self.materialize(k)
+            return m == lit
         r = Blob.of(o)
         if r is NotImplemented:
             return False
         return self.same(r)
+
+    def __ne__(self, o):
+        return sym.Not(self.__eq__(o))
 
     def __hash__(self):
         return id(self)
